@@ -276,7 +276,7 @@ def gen_history(rng, profile, faults=False, sweep=False, hostile=False, reuse=Fa
     hostile : C14 style -- programs come from the hostile generator
     """
     global PULL_AFTER_END
-    PULL_AFTER_END = (profile == "C14")
+    PULL_AFTER_END = (profile in ("C14", "C13"))
     b = Builder(rng, profile)
     plan = b.plan
     common_knobs(rng, plan)
@@ -397,12 +397,29 @@ def gen_history(rng, profile, faults=False, sweep=False, hostile=False, reuse=Fa
             text, _ = choose_program(rng, [], False)
         decoys.append(b.prog(text, 2 if "\x00" in text else rng.choice([0, 1, 2])))
 
+    # vocabularies: most queries use the harness's prebuilt core+dwarf one; in
+    # some runs the plan builds its own through the API, in both orders, plus
+    # a core-only one, and compiles against those
+    vocs = {}
+    if not sweep and not hostile and rng.random() < 0.1:
+        kinds = [("core", "dw"), ("dw", "core"), ("core",), ("core", "dw")]
+        for vi in range(rng.choice([1, 2, 3])):
+            vocs[vi] = rng.choice(kinds) if vi > 0 else rng.choice(kinds[:2])
+            b.setup.append(P.step(0, "VOC", vi, *vocs[vi]))
+
+    def parse_step(c, q, p, g=None):
+        # in a plan that builds vocabularies, every compile names one
+        if vocs:
+            cands = [vi for vi, kind in sorted(vocs.items()) if "dw" in kind or g is None or not g["dw"]]
+            return P.step(c, "PARSE", q, p, rng.choice(cands or sorted(vocs)))
+        return P.step(c, "PARSE", q, p)
+
     # setup-phase compiles, in seeded order, decoys mixed in
-    parse_steps = [P.step(0, "PARSE", q, p) for (q, p, g, info) in queries]
+    parse_steps = [parse_step(0, q, p, g) for (q, p, g, info) in queries]
     for d in decoys:
         if rng.random() < 0.6:
             dq = b.q()
-            parse_steps.append(P.step(0, "PARSE", dq, d))
+            parse_steps.append(parse_step(0, dq, d))
             if rng.random() < 0.5:
                 parse_steps.append(P.step(0, "DROPQ", dq))
     # keep DROPQ after its PARSE: shuffle by blocks
@@ -463,7 +480,7 @@ def gen_history(rng, profile, faults=False, sweep=False, hostile=False, reuse=Fa
             if keep_at is not None and rng.random() < 0.5:
                 # the value will outlive the query (and result) it came from
                 own_q = b.q()
-                st0 = [P.step(c, "PARSE", own_q, p)]
+                st0 = [parse_step(c, own_q, p, g)]
                 st, kept = task_steps(b, c, own_q, i, npulls, keep_at)
                 st = st0 + st + [P.step(c, "DROPQ", own_q)]
             else:
@@ -486,7 +503,7 @@ def gen_history(rng, profile, faults=False, sweep=False, hostile=False, reuse=Fa
                     # Dwarf) goes through a query that other inputs use too
                     sq, sp, sg, sinfo = rng.choice(share)
                     text2, info2 = b.plan["progs"][sp]["text"], sinfo
-                extra = [P.step(c, "PARSE", q2, b.prog(text2, 0)),
+                extra = [parse_step(c, q2, b.prog(text2, 0), g),
                          P.step(c, "MKIN", i2, "O:%d:%d" % (kept, depth))]
                 if rng.random() < 0.5:
                     extra.append(P.step(c, "RENDER", kept))
@@ -531,7 +548,7 @@ def gen_history(rng, profile, faults=False, sweep=False, hostile=False, reuse=Fa
                                         P.step(c, "DROPV", v))
             elif decoys:
                 dq = b.q()
-                b.scripts[c].insert(pos, P.step(c, "PARSE", dq, rng.choice(decoys)))
+                b.scripts[c].insert(pos, parse_step(c, dq, rng.choice(decoys)))
 
     if faults:
         add_env_faults(rng, b, files, vals)
@@ -555,7 +572,7 @@ def gen_history(rng, profile, faults=False, sweep=False, hostile=False, reuse=Fa
                 continue
             seen.add(p)
             q2 = b.q()
-            b.epilogue.append(P.step(9, "PARSE", q2, p))
+            b.epilogue.append(parse_step(9, q2, p, g))
             for i in g["inputs"][:2]:
                 st, _ = task_steps(b, 9, q2, i, rng.choice([PULL_CAP, 8]))
                 b.epilogue += st
